@@ -16,6 +16,9 @@ CONSTANTS Forms,        \* set of form records of the ISA
           Unjudged(_, _, _), \* (cpu, form, ops): legal by the table, but rejection by an assembler is tolerated
                         \* (documented hardware anomaly); if accepted the units must still be right
           Cpu,          \* CPU variant (string) whose forms are enumerated
+          Step,         \* address units per encoding unit (1; MSP430: 2 = bytes per word)
+          After(_, _, _, _), \* (cpu, previous form, form, units): units of a statement that directly follows a statement
+                        \* of the previous form; the identity for every context-free ISA, named assembler behaviour else
           K,            \* branch distances lo-K..lo+K, hi-K..hi+K are enumerated
           Salt          \* seed-derived number choosing the "random interior" representatives
 VARIABLES form, ops, pc
@@ -26,12 +29,16 @@ HasPc(f) == \E i \in 1..Len(f.flds) : f.flds[i].k \in {"rel", "page", "relw"}
 
 Interior(lo, hi, n) == lo + ((Salt * 7919 + n * 104729 + 12345) % (hi - lo + 1))
 
+\* out-of-range values that are congruent to small legal ones modulo a power of two: an encoder that masks the
+\* operand before its range check lets them through
+MaskProbes(fld) == IF fld.w > 12 THEN {2^16 + 5} ELSE {2^j + 5 : j \in fld.w..(fld.w + 5)} \cup {2^j : j \in fld.w..(fld.w + 5)}
+
 NumClasses(fld) ==
   LET s  == fld.scale
       pat == {85, 170, 4660, 43981, 2748} \cap (fld.lo..fld.hi)
       raw == {0, 1, fld.lo, fld.hi, fld.lo - s, fld.hi + s, fld.lo + s, fld.hi - s, fld.glo, fld.ghi,
               fld.glo - s, fld.ghi + s, (fld.lo + fld.hi) \div 2, Interior(fld.lo, fld.hi, 1),
-              Interior(fld.lo, fld.hi, 2)} \cup pat
+              Interior(fld.lo, fld.hi, 2)} \cup pat \cup MaskProbes(fld)
       all == IF s = 1 THEN raw ELSE {(v \div s) * s : v \in raw} \cup {fld.lo + 1, fld.hi - 1}
   IN {v \in all : fld.gmin <= v /\ v <= fld.gmax}
 
@@ -83,6 +90,49 @@ DecodeInverts == (Leaf /\ V = "units" /\ DupFree(form)) =>
 \* an out-of-range operand never has an encoding: Encode = Error
 OutOfRangeIsError == (Leaf /\ Verdict(form, ops, pc, AddrMax) # "units") => Encode(form, ops, pc, AddrMax) = Error
 Dump == (Leaf /\ ~Skipped(Cpu, form, ops)) => PrintT(<<"OUT", ToJson(CaseOut)>>)
+
+\* ---- adjacency dimension -------------------------------------------------------------------------------
+\* A second, independent state space over the same variables: one initial state per ORDERED PAIR of mnemonics of the
+\* CPU.  form = <<f1, f2>> are representative forms, the two statements stand on consecutive source lines at SeqPC
+\* (an `org` before the pair, nothing between them), ops = <<ops1, ops2>>.  All listed ISAs are context free: the
+\* units of the second statement are those of the table, except where After names assembler behaviour.
+Mnems == {f.mn : f \in FormsOfCpu}
+SeqPC == CHOOSE p \in BranchPCs : \A q \in BranchPCs : p <= q
+\* representative form of a mnemonic: prefer forms without PC-dependent operand and non-alias forms
+RepForm(m) ==
+  LET S == {f \in FormsOfCpu : f.mn = m}
+      S1 == {f \in S : ~HasPc(f)}
+      S2 == IF S1 = {} THEN S ELSE S1
+      S3 == {f \in S2 : ~f.alias}
+      S4 == IF S3 = {} THEN S2 ELSE S3
+  IN CHOOSE f \in S4 : \A h \in S4 : Len(f.flds) <= Len(h.flds)
+Cand(fld, p) ==
+  CASE fld.k = "enum" -> {1, Len(fld.names)}
+    [] fld.k = "num"  -> {v \in {18, 4660, 19 * fld.scale, ((fld.lo + fld.hi) \div (2 * fld.scale)) * fld.scale, fld.hi, fld.lo} :
+                             fld.gmin <= v /\ v <= fld.gmax}
+    [] fld.k = "rel"  -> {p + fld.base, p + fld.base + 2 * fld.scale}
+    [] fld.k = "page" -> {((p + fld.base) \div (2^fld.w)) * (2^fld.w) + 18}
+    [] fld.k = "relw" -> {4660}
+RECURSIVE CandOps(_, _, _)
+CandOps(f, i, p) == IF i > Len(f.flds) THEN {<<>>} ELSE {<<h>> \o t : h \in Cand(f.flds[i], p), t \in CandOps(f, i + 1, p)}
+RepOps(f, p) == CHOOSE o \in CandOps(f, 1, p) :
+                  AllLegal(f, o, p, AddrMax) /\ ~Skipped(Cpu, f, o) /\ ~Unjudged(Cpu, f, o)
+
+NoPrev == [mn |-> ""]
+Units1(f1, o1, p) == After(Cpu, NoPrev, f1, EncodeRaw(f1, o1, p))
+SInit == \E m1 \in Mnems : \E m2 \in Mnems :
+           /\ pc = SeqPC
+           /\ form = <<RepForm(m1), RepForm(m2)>>
+           /\ LET o1 == RepOps(form[1], pc) IN
+                ops = <<o1, RepOps(form[2], pc + Len(Units1(form[1], o1, pc)) * Step)>>
+SNext == UNCHANGED <<form, ops, pc>>
+Pc2 == pc + Len(Units1(form[1], ops[1], pc)) * Step
+SeqOut == [a |-> [id |-> form[1].id, mn |-> form[1].mn, args |-> RenderArgs(form[1], ops[1]), pc |-> pc, org |-> pc,
+                  exp |-> "units", units |-> Units1(form[1], ops[1], pc), ops |-> ops[1], len |-> Len(form[1].enc)],
+           b |-> [id |-> form[2].id, mn |-> form[2].mn, args |-> RenderArgs(form[2], ops[2]), pc |-> Pc2, org |-> -1,
+                  exp |-> "units", units |-> After(Cpu, form[1], form[2], EncodeRaw(form[2], ops[2], Pc2)), ops |-> ops[2],
+                  len |-> Len(form[2].enc)]]
+SDump == PrintT(<<"SEQ", ToJson(SeqOut)>>)
 
 \* ---- checked once on the table --------------------------------------------------------------------
 TableSane == /\ \A f \in Forms : FormWellFormed(f, UnitBits)
